@@ -182,6 +182,8 @@ impl<T> RwLock<T> {
             sched_point("rwlock-read").await;
             let guard = self.inner.read().await;
             record(self.id, name, Mode::Read, Phase::Acquired, site);
+            // a thread can be preempted while it holds the lock: other tasks run, writers wait
+            sched_point("rwlock-read-acquired").await;
             RwLockReadGuard {
                 guard,
                 id: self.id,
@@ -199,6 +201,7 @@ impl<T> RwLock<T> {
             sched_point("rwlock-write").await;
             let guard = self.inner.write().await;
             record(self.id, name, Mode::Write, Phase::Acquired, site);
+            sched_point("rwlock-write-acquired").await;
             RwLockWriteGuard {
                 guard,
                 id: self.id,
